@@ -28,8 +28,10 @@ package main
 //	         not longer than n); the bytes appended last are no longer waited for
 //	m        rename the file at the path away (`mv f f.1`: logrotate's default rotation); no-op if there is none
 //	o<hex>   atomic replace: a new file with this content is renamed ONTO the path (no-op if there is no file there);
-//	         delivery is not awaited.  Op `followspec` is `follow` with the model answering what the property asks for
-//	         (a replace counts as removal + re-creation) – the known finding of known_findings/C15.json
+//	         with re-open the content counts as "appended last" (`w`, `d` and the end of the history wait for it),
+//	         without re-open it is not followed and not awaited.  Op `followspec` is `follow` with the model answering
+//	         what the property asks for (a replace counts as removal + re-creation); the two agree since /repo f4a9570
+//	         (before: the known finding "atomic replace" of known_findings/C15.json)
 //	q<hex>   append without expecting delivery (the steps `w`, `d` and the end of the history do not wait for these bytes)
 //
 // Answer: ok <delivered hex> eof=<0|1> drainerr=<0|1>.  All waits are bounded; a wait that expires
@@ -214,14 +216,17 @@ func c15Follow(f []string) string {
 			appendBytes(UnHex(arg))
 			last = nil
 		case 'o':
+			last = nil
 			if exists() {
 				tmp := path + ".tmp"
-				if os.WriteFile(tmp, UnHex(arg), 0o644) == nil {
-					os.Rename(tmp, path)
+				b := UnHex(arg)
+				if os.WriteFile(tmp, b, 0o644) == nil && os.Rename(tmp, path) == nil {
 					c15Counters["history.replace_by_rename"]++
+					if reopen && len(b) > 0 {
+						last = b
+					}
 				}
 			}
-			last = nil
 		case 'm':
 			if exists() {
 				c15Renames++
@@ -606,6 +611,107 @@ func c15GenRenameCase(r *Rand) string {
 	return fmt.Sprintf("follow %s %d %d %s", mode, ro, tl, strings.Join(g.steps, ","))
 }
 
+// Rotations of every kind in one history, above all the atomic replace (`o`: a new file renamed ONTO the path – one
+// Create event, no Remove; followed by -F since /repo f4a9570): replace, rename away + create, remove + create, mixed,
+// with the consumer caught up or busy (window), twice inside one window (the first replacement is never opened),
+// with an empty replacement, and – notify – with a replacement longer than everything delivered so far.  Polling
+// re-open follow: every new file is shorter than the old offset when the poller looks (the proviso of the property).
+// Plain follow keeps the descriptor it has (notify: does not end until a Remove event of the followed name; poll: until
+// Stat finds no file).
+func c15GenReplaceCase(r *Rand) string {
+	g := &c15Gen{r: r}
+	mode := Pick(r, []string{"notify", "notify", "poll"})
+	reopen := r.Chance(3, 4)
+	tail := r.Chance(1, 4)
+	if r.Chance(1, 4) {
+		g.add("i-")
+	} else {
+		g.add("i" + Hex(g.chunk(3, 40)))
+	}
+	if r.Chance(1, 2) {
+		g.add(fmt.Sprintf("B%d", Pick(r, []int{1, 2, 3, 7, 16, 64, 4096})))
+	}
+	if mode == "poll" && r.Chance(1, 2) {
+		g.add(fmt.Sprintf("A%d", Pick(r, []int{1, 2, 3, 5})))
+	}
+	g.appends(r.Range(0, 2))
+	content := func() []byte {
+		if mode == "notify" && r.Chance(1, 3) {
+			return g.chunk(20, 60) // longer than the old offset may be: no proviso for the notify reader
+		}
+		if reopen && r.Chance(1, 8) {
+			return nil // an empty replacement
+		}
+		return g.short()
+	}
+	hexOrDash := func(b []byte) string {
+		if len(b) == 0 {
+			return "-"
+		}
+		return Hex(b)
+	}
+	rot := 1
+	if reopen {
+		rot = r.Range(1, 4)
+	}
+	for i := 0; i < rot; i++ {
+		kind := Pick(r, []string{"o", "o", "o", "m", "x"})
+		if !reopen {
+			kind = "o"
+		}
+		c15Counters["gen.rotation."+kind+"."+mode]++
+		windowed := r.Chance(1, 3) || (mode == "poll" && !reopen)
+		if windowed { // the rotation happens while the consumer is busy
+			g.add("H" + Hex(g.chunk(12, 24)))
+		} else {
+			g.add("a" + Hex(g.chunk(12, 24)))
+			g.add("w")
+		}
+		switch kind {
+		case "o":
+			g.add("o" + hexOrDash(content()))
+			if windowed && reopen && r.Chance(1, 3) {
+				g.add("o" + hexOrDash(g.short())) // replaced again before the reader looked
+			}
+		case "m":
+			g.add("m")
+			g.add("c")
+		case "x":
+			g.add("x")
+			g.add("c")
+		}
+		if windowed {
+			if r.Bool() {
+				g.add("q" + Hex(g.short()))
+			}
+			g.add(fmt.Sprintf("p%d", r.Range(5, 30)))
+			g.add("r")
+		} else if r.Chance(1, 3) {
+			g.add(fmt.Sprintf("p%d", r.Range(0, 12)))
+		}
+		if reopen {
+			g.add("a" + Hex(g.short()))
+			g.add("w")
+			g.appends(r.Range(0, 2))
+		} else { // plain follow: what is written to the new file is not followed
+			g.add("q" + Hex(g.chunk(3, 12)))
+			g.add("p20")
+		}
+	}
+	if !reopen && r.Bool() {
+		g.add("x") // the file now at the path is removed: Remove event / failing Stat ends plain follow
+		g.add("p30")
+	}
+	ro, tl := 0, 0
+	if reopen {
+		ro = 1
+	}
+	if tail {
+		tl = 1
+	}
+	return fmt.Sprintf("follow %s %d %d %s", mode, ro, tl, strings.Join(g.steps, ","))
+}
+
 // exactly n bytes
 func (g *c15Gen) exact(n int) []byte {
 	g.k++
@@ -725,6 +831,7 @@ func c15GenAll(r *Rand, tier string) []string {
 		for i := 0; i < v; i++ {
 			out = append(out, c15GenTruncCase(r))
 			out = append(out, c15GenRenameCase(r))
+			out = append(out, c15GenReplaceCase(r))
 		}
 		return out
 	}
@@ -745,6 +852,9 @@ func c15GenAll(r *Rand, tier string) []string {
 	}
 	for i := 0; i < nt; i++ {
 		out = append(out, c15GenRenameCase(r))
+	}
+	for i := 0; i < nt+nt/2; i++ {
+		out = append(out, c15GenReplaceCase(r))
 	}
 	// the wiring: followreader.New and the command line (c15wire.go)
 	out = append(out, c15WireGenAll(r, tier)...)
@@ -798,6 +908,9 @@ func c15Stats(cases []string) map[string]int {
 		}
 		if strings.Contains(h, ",m,") {
 			st["history.rename_rotation."+f[1]+".reopen"+f[2]]++
+		}
+		if strings.Contains(h, ",o") {
+			st["history.atomic_replace."+f[1]+".reopen"+f[2]]++
 		}
 		if strings.Contains(h, ",t") {
 			st["history.truncate_in_place."+f[1]+".reopen"+f[2]]++
